@@ -204,7 +204,7 @@ class Case(object):
     """One problem instance: how to make a fresh state and how to advance it by n iterations."""
 
     def __init__(self, label, fresh, run, ref=None, keys=('x',), mult=1, resumable=False,
-                 early=False, default_run=None, files=(), count_alt=None):
+                 early=False, default_run=None, files=(), count_alt=None, raise_site=None):
         self.label = label
         self.fresh = fresh          # () -> dict of elements (the state the caller owns)
         self.run = run              # (state, n, callback) -> None      implementation
@@ -216,6 +216,7 @@ class Case(object):
         self.default_run = default_run
         self.files = files          # source files of the solver (to attribute exceptions)
         self.count_alt = count_alt  # second admissible callbacks-per-iteration (docs ambiguous)
+        self.raise_site = raise_site    # coarser site for exceptions raised by the solver itself
 
 
 def _snap(st, keys):
@@ -273,8 +274,8 @@ class _Acc(object):
         self.why = {}
         self.sigs = set()
 
-    def viol(self, sym, detail):
-        self.first.setdefault(sym, detail)
+    def viol(self, sym, detail, site=None):
+        self.first.setdefault((site, sym), detail)
 
     def skip(self, why):
         self.skipped += 1
@@ -291,8 +292,8 @@ def _check_case(c, N, three_way, acc, name):
             kind, e = r
             if kind == 'own':
                 acc.viol('raises:' + type(e).__name__,
-                         '%s: the reference and the optimised solver cannot run a documented '
-                         'configuration: %r' % (lab, e))
+                         '%s: the shipped reference (and the optimised solver) cannot run a '
+                         'documented configuration: %r' % (lab, e), site=c.raise_site)
             else:
                 acc.skip('reference raises in functional/operator code: ' + type(e).__name__)
             return
@@ -307,7 +308,8 @@ def _check_case(c, N, three_way, acc, name):
                 acc.viol('optimised_raises:' + type(e).__name__,
                          '%s niter=%d: reference runs, optimised raises %r' % (lab, k, e))
             elif kind == 'own':
-                acc.viol('raises:' + type(e).__name__, '%s niter=%d: %r' % (lab, k, e))
+                acc.viol('raises:' + type(e).__name__, '%s niter=%d: %r' % (lab, k, e),
+                         site=c.raise_site)
             else:
                 acc.skip('raises in functional/operator code: ' + type(e).__name__)
             return
@@ -503,6 +505,10 @@ def _cases_adupdates(cfg):
     files = (M_adu.__file__,)
     vals = [0.5, 0.25] if any(b['ss'] == 'scalar' for b in blocks) else [0.5]
     loops = ['outer', 'inner'] if len(blocks) > 1 else ['outer']
+    rk = {'T': 'tensor', 'W': 'power', 'X': 'product', 'V': 'power-of-1d'}
+    special = sorted(set('inner_stepsizes=%s,range=%s' % (b['ss'], rk[RKIND[b['L']]])
+                         for b in blocks if b['ss'] != 'scalar'))
+    rsite = 'adupdates[%s]' % (';'.join(special) or 'inner_stepsizes=scalar')
     for mu, val, x0 in _grid(cfg, STEPS, vals, STARTS):
         inner = [_inner_ss(b['ss'], val, L.range) for b, L in zip(blocks, Ls)]
         for loop in loops:
@@ -520,7 +526,7 @@ def _cases_adupdates(cfg):
                        % ([b['L'] for b in blocks], mu,
                           [b['ss'] if b['ss'] != 'scalar' else val for b in blocks], x0, loop),
                        fresh, run, ref if loop == 'outer' else None, files=files,
-                       mult=len(blocks) if loop == 'inner' else 1)
+                       mult=len(blocks) if loop == 'inner' else 1, raise_site=rsite)
 
 
 def _cases_dpdc(cfg):
@@ -803,10 +809,12 @@ ADAPTERS = {
 # ------------------------------------------------------------------------------------------
 # enumeration
 
-def _ss_kinds(g):
+def _ss_kinds(g, rkind='T'):
     """Documented kinds of inner_stepsizes for a functional (adupdates docstring)."""
     kinds = ['scalar']
-    if g in ('L1', 'L2sq', 'L1t', 'L2sqt'):
+    # not enumerated: an element of a product space that is not a power space (both solvers
+    # convert it with numpy.asarray, which such elements refuse: ValueError)
+    if g in ('L1', 'L2sq', 'L1t', 'L2sqt') and rkind != 'X':
         # "g_i is an L1Norm or an L2NormSquared": a g_i.domain element (odl's own test uses a
         # translated L2NormSquared)
         kinds.append('elem')
@@ -869,7 +877,7 @@ def configs(tier):
     # (a) alternating dual updates, one block
     for L in DOPS + ['D3', 'I4']:
         for g in FPOOL[RKIND[L]]:
-            for k in _ss_kinds(g):
+            for k in _ss_kinds(g, RKIND[L]):
                 add(FULL if not deep else 2, solver='adupdates',
                     blocks=[{'L': L, 'g': g, 'ss': k}])
     # large pools (inner alphabet: at most one deviation from the default instance) ----------
@@ -883,9 +891,10 @@ def configs(tier):
         for L1, L2 in itertools.product(gops, repeat=2):
             n = 4 if deep else 3
             for g1, g2 in itertools.product(SHORT[RKIND[L1]][:n], SHORT[RKIND[L2]][:n]):
-                kk = [('scalar', 'scalar'), (_ss_kinds(g1)[-1], _ss_kinds(g2)[-1])]
+                k1s, k2s = _ss_kinds(g1, RKIND[L1]), _ss_kinds(g2, RKIND[L2])
+                kk = [('scalar', 'scalar'), (k1s[-1], k2s[-1])]
                 if deep:
-                    kk = list(itertools.product(_ss_kinds(g1), _ss_kinds(g2)))
+                    kk = list(itertools.product(k1s, k2s))
                 for k1, k2 in sorted(set(kk), key=lambda t: (t != ('scalar', 'scalar'), t)):
                     add(1, solver='adupdates', blocks=[{'L': L1, 'g': g1, 'ss': k1},
                                                        {'L': L2, 'g': g2, 'ss': k2}])
@@ -917,9 +926,9 @@ def configs(tier):
                     add(1, solver='proximal_gradient', L=L, f=f, g=g, acc=True)
     # (c) Douglas-Rachford
     for dom, gops in groups.items():
-        for f in (_pool('T', deep) if deep else SHORT['T']):
+        for f in (_pool('T', False) if deep else SHORT['T']):
             for L in gops:
-                for g in (_pool(RKIND[L], deep) if deep else SHORT[RKIND[L]]):
+                for g in (_pool(RKIND[L], False) if deep else SHORT[RKIND[L]]):
                     add(1, solver='douglas_rachford_pd', ops=[L], f=f, g=[g])
             for L1, L2 in itertools.product(gops, repeat=2):
                 add(1, solver='douglas_rachford_pd', ops=[L1, L2], f=f,
@@ -984,7 +993,8 @@ def run(cfg):
         # instance of the large pools
         three = cfg['deep'] and (i == 0 or cfg['dev'] > 1)
         _check_case(c, cfg['N'], three, acc, name)
-    viol = [{'site': site, 'symptom': s, 'detail': d} for s, d in acc.first.items()]
+    viol = [{'site': st or site, 'symptom': s, 'detail': d}
+            for (st, s), d in acc.first.items()]
     return {'evals': acc.evals, 'viol': viol, 'skipped': acc.skipped,
             'sig': ['%s:%s' % (name, s) for s in sorted(acc.sigs)] or [name + ':none'],
             'trivial': acc.evals == 0, 'why': acc.why}
